@@ -184,6 +184,9 @@ def check_write_clear_rearm(run, rule):
 
 
 def check(run):
+    # a limit (or anything else) cached from the block parameters is recomputed wherever the parameters change
+    from .. import derived as _derived
+    _derived.report(run, "R12.8", ["CDNS::CdnsBlock", "CDNS::CdnsBlockRead", "CDNS::CdnsExporter", "CDNS::FilePreamble", "CDNS::BlockParameters"])
     facts = run.facts
     # address events are aggregated in a map keyed by the event itself: the count of distinct events (and with it the
     # moment the block is full) is right only if the key's equality and hash tell all distinct events apart
